@@ -17,10 +17,14 @@ def run(ctx):
     PV.a1_a2_expand_yield(ctx)
     PV.a3_recording_sites(ctx)
     PV.a4_drop_guard(ctx)
+    PV.a4b_clean_labels_call_site(ctx)
     PV.a5_application_discipline(ctx)
     PV.a7_pairing(ctx)
     PV.a7_zip_alignment(ctx)
     PV.a8_memo_key_coherence(ctx)
+    # labels that are looked up / marked empty resolve to the class they were given for
+    T.check_lookup_totality(ctx)
+    ctx.floor("T1", 6)
     ctx.floor("A8", 1)
     T.check_set_empty_writers(ctx)
     # 'equal classes always receive the same label, unequal classes different ones'
